@@ -25,6 +25,10 @@ def run(tier):
     for (mod, cfg, pick), rr in zip(specs, runs):
         c.add_tlc(rr, "borrowed worlds of " + mod)
         borrowed += list(dict.fromkeys(rr.behaviours))[c.seed % pick::pick]
+    from lib import gen
+    gb = gen.behaviours(c, tier, "finite")
+    borrowed += gb
+    c.coverage["grammar_documents"] = len(gb)
     bres = replay.replay(exe, borrowed, shards=16, timeout_s=300, extra=("--only-finite", "1"))
     bres.n = len(borrowed)
     c.add_replay(bres, "worlds and points of the other specifications under ASan + UBSan: only totality and finiteness are judged")
@@ -40,7 +44,7 @@ def run(tier):
                           "sphere-only locations (poles, +-180 meridian, centre). Every returned value must be finite unless a std::exception is "
                           "thrown; any sanitizer report, signal or time-out is a violation. In addition a sample of the worlds and query points of eleven other "
                           "specifications (closed-form models, envelopes, depth surfaces, sections, slab geometry, culling grids, motions, cross sections, "
-                          "plumes, feature stacks, random models) is replayed under the sanitizers and judged only for finiteness. non-trivial = distinct "
+                          "plumes, feature stacks, random models) and simulated documents of the world-file grammar Gen.tla are replayed under the sanitizers and judged only for finiteness. non-trivial = distinct "
                           "(world kind, location) pairs plus borrowed behaviours")
     c.assumptions += ["undefined behaviour is what ASan and UBSan report; the model only directs where to look",
                       "distance_to_plane is not included: it reports infinity by design away from a slab"]
